@@ -9,4 +9,5 @@ pub mod mutate;
 pub mod ops;
 pub mod optable;
 pub mod rng;
+pub mod tree;
 pub mod workload;
